@@ -2,6 +2,7 @@
 from __future__ import annotations
 
 import json
+import time
 from typing import Dict, List, Optional
 
 from harness.lib.core import VERIF, Ctx, lean_lock, run_driver, shrink_ops
@@ -9,7 +10,9 @@ from harness.extract import software as x_sw
 from harness.extract import software_recv as x_recv
 from harness.extract import software_loader as x_load
 from harness.extract import software_regs as x_regs
+from harness.extract import software_relay as x_relay
 from harness.rigs import software as rig
+from harness.rigs import software_relay as rrig
 from harness.rigs import software_recv as wrig
 from harness.rigs import software_load as lrig
 
@@ -59,9 +62,21 @@ MANIFEST = {
             "operations included, INSTALLING while fewer than max(c,1) ticks were delivered, RUNNING + GOOD at that tick; refinement "
             "C13_run_application); SoftwareManager.install and SoftwareManager.uninstall are TRANSLATED statement by statement (guard, constructor, eviction, "
             "list / route / table writes, start / install / forced CLOSED, in source order) and proved equal AS WHOLE METHODS to the model's "
-            "installSvc / installApp / uninstall for every node state in which no object is both a service and an application (a "
-            "hypothesis, not proved preserved), with programs sharing a (port, protocol) key: the last installer owns the slot, "
+            "installSvc / installApp / uninstall on EVERY node reachable by model operations from registries without software, without "
+            "hypothesis (second shift: the invariant RegWF - uids handed out once, no object both a service and an application, every "
+            "entry of `software` stored under its object's own name, so `software.name == software_name` for the popped object - is "
+            "proved for empty registries and preserved by all 18 operations: C13_regwf_step, C13_gen_methods_reachable), "
+            "with programs sharing a (port, protocol) key: the last installer owns the slot, "
             "uninstalling a non-owner keeps it, uninstalling the owner empties it although another program with the key is installed. "
+            "RELAY (second shift): receive() and send() of EVERY shipped class - FTP client / server and the C2 suite included - are "
+            "TRANSLATED through their class chains into programs (Gen/SoftwareRelay); a checker proved sound (quietChain_sound) shows on "
+            "the translated programs, for every payload, every payload test and every callee result, that with _can_perform_action() "
+            "False the method returns False and does nothing but set the FTP classes' `_active` flag (C13_receive_not_running, "
+            "C13_send_not_running; one listed exception: DatabaseService.send has no guard of its own and is called only from its guarded "
+            "receive); the C2 relay's dispatch and the callers of the C2 / FTP payload handlers are pinned (handlers are reached only "
+            "through receive); a RUNNING FTP client adds a connection exactly for a successful PORT and terminates exactly for a "
+            "successful QUIT, an FTP server processes requests only (on the translated code). What RUNNING FTP / C2 software does "
+            "inside its handlers (file transfer, command execution) is NOT modelled. "
             "CONNECTION BOOKKEEPING (add_connection / terminate_connection): health becomes OVERWHELMED exactly when a connection is "
             "requested at max_sessions; the table never exceeds max_sessions. "
             "Tie: guard tables, validators, countdown idioms, enum values, defaults, the shipped-class table (every receive() "
@@ -72,28 +87,35 @@ MANIFEST = {
             "modelled classes, real NIC/ARP/HostNode/SessionManager/SoftwareManager transport); R-conn and R-bot on real instances; R-load builds generated scenarios THROUGH "
             "PrimaiteGame.from_config (defaults section with boundary values, per-service options, applications) and diffs the loaded "
             "attributes against the specification and requests / whole-game steps / run-time installs against the model instantiated with "
-            "the CONFIGURED durations (enumerated over the value pool + random).",
+            "the CONFIGURED durations (enumerated over the value pool + random; second shift: also scenarios with 2-3 hosts on a switch "
+            "with links, database-service listed on a server and a database client on another host, compared once per host); R-relay: "
+            "two real hosts with the real FTP transfer and C2 exchange, every real receive() / send() call of a fully translated class "
+            "compared with its translated chain run on the observed environment, plus implementation-side oracles (not running => "
+            "nothing handled, nothing sent, state unchanged; open ports = ports of RUNNING slot owners; FTP client bookkeeping). "
+            "When many traces disagree at once the shrinker works on the first trace per signature only and is time-boxed (every trace "
+            "is still run and compared).",
     "note": "C13-specific: payload processing is modelled for DNS, NTP and web client/server and the three attack loops — FTP client / "
-            "server (STOR / RETR, files), database service / client, terminal (C16) are followed only as far as routing and the running-guard; of the C2 suite the "
+            "server (STOR / RETR, files), database service / client, terminal (C16) are followed only as far as routing and the running-guard (the guard on the TRANSLATED receive / send of every class, the FTP client's connection bookkeeping; not the handlers); of the C2 suite the "
             "connection state machine is modelled (one tick, keep-alive handlers, command gate; the peer and the network enter as the "
-            "input `reply`), the command relay and the two-node keep-alive exchange are not; the web server's database access enters as a verdict (is a database client "
+            "input `reply`), of the command relay the guard, the dispatch and the handler callers (what the handlers execute is not modelled; the rig runs the real exchange between two hosts under oracles), the two-node keep-alive exchange as a model is not; the web server's database access enters as a verdict (is a database client "
             "installed, what connection it hands out, do its queries succeed: C17's subject), the bots' random trials as inputs (C19's); "
             "URLs are taken as parsed (urlparse is trusted); two-node exchanges are "
             "modelled over an IDEAL transport (both nodes ON, peer's frame filter accepts; ARP, links, NIC state, ACLs are C08/C12/C18's "
             "subject) and the rig uses instant power transitions there; the exchange started by an NTP client inside "
             "Node.apply_timestep is modelled at its place in the per-service loop only while no power countdown is pending; "
             "termination of the model's transport is proved for nodes with at most 61 installed programs (fuel 4096); "
-            "class-specific `execute`/`configure` requests, C2Beacon closing itself, DatabaseService's nested FTPClient install, "
-            "are not covered; of the loader only the defaults block of the "
+            "class-specific `execute`/`configure` requests, C2Beacon closing itself, are not covered; DatabaseService's nested FTPClient install is "
+            "described to the model as two consecutive installs in node.services order (the one order the model cannot reproduce, that of "
+            "`software`, is not compared there); of the loader only the defaults block of the "
             "services loop is translated (install_duration has no configuration source: class default only; per-service `fixing_duration` "
             "options are C14/C20's; float / underscore numerals of the defaults section are outside the value model); router/firewall frame paths only as far "
             "as the hand-over test to the session manager.",
     "technique": "Lean 4 theorems over executable lifecycle, registry, receive-path and payload models; models tied by regenerated "
-                 "tables, by source-to-Lean translation of the software manager's functions and by three differential rigs",
+                 "tables, by source-to-Lean translation of the software manager's functions and methods, of the loader's defaults block and of every class's receive / send, and by differential rigs (R-svc, R-load, R-recv, R-relay, R-conn, R-bot, R-c2)",
     "design_ref": "5/C13",
 }
 MODULES = ["PrimaiteModel.Props.C13", "PrimaiteModel.Lemmas.RegistriesRep", "PrimaiteModel.Props.C13Recv", "PrimaiteModel.Props.C13Bots", "PrimaiteModel.Props.C13C2",
-           "PrimaiteModel.Props.C13Loader", "PrimaiteModel.Props.C13AppRun", "PrimaiteModel.Props.C13Regs"]
+           "PrimaiteModel.Props.C13Loader", "PrimaiteModel.Props.C13AppRun", "PrimaiteModel.Props.C13Regs", "PrimaiteModel.Props.C13Relay"]
 EXE = "drv_c13"
 EXE_W = "drv_c13recv"   # two nodes with class data and a transport (receive path, DNS / NTP payload processing)
 
@@ -134,6 +156,45 @@ def _sig_of_diff(res: dict, model: List[str], j: int) -> dict:
         opw = res["lines"][j - 1].split()[0]
         return {"kind": "model-vs-impl", "where": "state", "op": opw}
     return {"kind": "model-vs-impl", "where": "answer", "op": line.split()[0]}
+
+
+class _ShrinkGov:
+    """Bounds the shrinker's work when MANY traces disagree at once (a change that breaks install / uninstall makes nearly every
+    trace of a family disagree): per family and preliminary signature (read off the UNSHRUNK first difference) only the first
+    disagreeing trace is shrunk, the second is reported as it is (the whole trace is a concrete replay), further ones are counted
+    (`<family>:disagree-not-reported:…` in the histogram; the obligation of the family still states how many traces disagree).
+    The shrinker itself is time-boxed per trace and in total: after the deadline every candidate is rejected, so `shrink_ops`
+    returns the smallest failing trace found so far.  Nothing is compared less: every trace is still run and diffed."""
+
+    def __init__(self):
+        self.reset(False)
+
+    def reset(self, thorough: bool):
+        self.seen: Dict[str, int] = {}
+        self.spent = 0.0
+        self.total = 240.0 if thorough else 40.0      # seconds of shrinking per run
+        self.per_trace = 30.0 if thorough else 8.0    # seconds of shrinking per trace
+
+    def admit(self, family: str, sig: dict) -> str:
+        key = family + ":" + json.dumps(sig, sort_keys=True)
+        self.seen[key] = self.seen.get(key, 0) + 1
+        if self.seen[key] == 1:
+            return "shrink" if self.spent < self.total else "report"
+        return "report" if self.seen[key] == 2 else "count"
+
+    def shrink(self, ops, fails, budget: int):
+        t0 = time.monotonic()
+        deadline = t0 + min(self.per_trace, max(self.total - self.spent, 0.0))
+
+        def boxed(cand):
+            return time.monotonic() < deadline and fails(cand)
+        try:
+            return shrink_ops(ops, boxed, budget=budget)
+        finally:
+            self.spent += time.monotonic() - t0
+
+
+GOV = _ShrinkGov()
 
 
 def _check_case(ctx: Ctx, name: str, case: dict, res: dict, model: List[str], guards: Dict[str, bool]):
@@ -191,10 +252,16 @@ def _check_case(ctx: Ctx, name: str, case: dict, res: dict, model: List[str], gu
         except Exception:  # noqa
             return False
         return jj >= 0
-    small = dict(case, ops=shrink_ops(case["ops"], fails, budget=120))
-    res2, model2, j2 = _run_one(small, guards)
-    if j2 < 0:
-        small, res2, model2, j2 = case, res, model, j
+    mode = GOV.admit("svc", _sig_of_diff(res, model, j))
+    if mode == "count":
+        ctx.count("svc:disagree-not-reported:" + _sig_of_diff(res, model, j)["op"])
+        return False
+    small, res2, model2, j2 = case, res, model, j
+    if mode == "shrink":
+        small = dict(case, ops=GOV.shrink(case["ops"], fails, budget=120))
+        res2, model2, j2 = _run_one(small, guards)
+        if j2 < 0:
+            small, res2, model2, j2 = case, res, model, j
     line = res2["lines"][j2] if j2 < len(res2["lines"]) else "?"
     prev = res2["lines"][j2 - 1] if j2 > 0 else "?"
     ctx.violation(_sig_of_diff(res2, model2, j2),
@@ -252,12 +319,20 @@ def _check_world_case(ctx: Ctx, name: str, case: dict, res: dict, model: List[st
             return _diff(r2, run_driver(EXE_W, r2["lines"])) >= 0
         except Exception:  # noqa
             return False
-    small = dict(case, ops=shrink_ops(case["ops"], fails, budget=80))
-    res2 = wrig.run_world_case(small, guards)
-    model2 = run_driver(EXE_W, res2["lines"])
-    j2 = _diff(res2, model2)
-    if j2 < 0:
-        small, res2, model2, j2 = case, res, model, j
+    pre = res["lines"][j].split() if j < len(res["lines"]) else ["?"]
+    presig = {"line": pre[1] if pre[0] in ("A", "B") and len(pre) > 1 else pre[0], "dump": pre[-1] == "dump"}
+    mode = GOV.admit("world", presig)
+    if mode == "count":
+        ctx.count("world:disagree-not-reported:" + presig["line"])
+        return False
+    small, res2, model2, j2 = case, res, model, j
+    if mode == "shrink":
+        small = dict(case, ops=GOV.shrink(case["ops"], fails, budget=80))
+        res2 = wrig.run_world_case(small, guards)
+        model2 = run_driver(EXE_W, res2["lines"])
+        j2 = _diff(res2, model2)
+        if j2 < 0:
+            small, res2, model2, j2 = case, res, model, j
     line = res2["lines"][j2] if j2 < len(res2["lines"]) else "?"
     w = line.split()
     dumpline = line.endswith("dump")
@@ -293,16 +368,24 @@ def _check_load_case(ctx: Ctx, name: str, case: dict, res: dict, model: List[str
     ctx.cov["traces_validated_against_impl"] += 1
     j = _diff(res, model)
     d = case["defaults"] if case.get("section", "present") == "present" else {}
-    ctx.case({"load": {"defaults": lrig.show_dict(d), "node": case["node"]}, "lines": [l for l in res["lines"][1:] if l != "dump"]},
+    ctx.case({"load": {"defaults": lrig.show_dict(d), "node": case["node"], "peers": case.get("peers"), "view": case.get("view")}, "lines": [l for l in res["lines"][1:] if l != "dump"]},
              any(k in d for k in lrig.KEYS))
     ctx.count("load:focus:" + case.get("focus", "?"))
+    if case.get("peers"):
+        ctx.count("load:multi:view:" + ("host0" if case.get("view", lrig.HOST) == lrig.HOST else "peer"))
+        ctx.count("load:multi:hosts=" + str(1 + len(case["peers"])))
+        vd = next((p_ for p_ in case["peers"] if p_["hostname"] == case.get("view")), None)
+        if vd is not None and any(e["type"] == "database-service" for e in vd["services"]):
+            ctx.count("load:multi:view-lists-database-service")
+        ctx.count("load:multi:ops-on-other-hosts", sum(1 for o in case["ops"] if o["op"] != "tick" and o.get("host", lrig.HOST) != case.get("view", lrig.HOST)))
     ctx.count("load:section:" + case.get("section", "present"))
     for k in lrig.KEYS:
         ctx.count(f"load:{k}=" + (lrig.show_val(d[k]) if k in d else "absent"))
     ctx.count("load:outcome:" + ("loaded" if res["loaded"] else "raised"))
-    for e in case["node"]["services"]:
+    vnode = next((p_ for p_ in case.get("peers", []) if p_["hostname"] == case.get("view")), case["node"])
+    for e in vnode["services"]:
         ctx.count("load:svc:" + e["type"] + (":own-fixing" if "fixing_duration" in e.get("options", {}) else ""))
-    for e in case["node"]["applications"]:
+    for e in vnode["applications"]:
         ctx.count("load:app:" + e["type"])
     # completed timed transitions seen on loaded services: RESTARTING at one dump, RUNNING at a later one
     for q, m in zip(res["lines"], model):
@@ -330,8 +413,16 @@ def _check_load_case(ctx: Ctx, name: str, case: dict, res: dict, model: List[str
     if j < 0:
         return True
     n_init = next((k for k, l in enumerate(res["lines"]) if l == "dump"), 0)
+    pl = res["lines"][j] if j < len(res["lines"]) else "?"
+    presig = {"line": pl.split()[0], "prev": (res["lines"][j - 1].split()[0] if j > 0 else "?")}
+    mode = GOV.admit("load", presig)
+    if mode == "count":
+        ctx.count("load:disagree-not-reported:" + presig["prev"] + "/" + presig["line"])
+        return False
     if j <= n_init:
         small = dict(case, ops=[])
+    elif mode != "shrink":
+        small = case
     else:
         def fails(ops, case=case):
             c = dict(case, ops=ops)
@@ -340,7 +431,7 @@ def _check_load_case(ctx: Ctx, name: str, case: dict, res: dict, model: List[str
                 return _diff(r2, run_driver(EXE, r2["lines"])) >= 0
             except Exception:  # noqa
                 return False
-        small = dict(case, ops=shrink_ops(case["ops"], fails, budget=60))
+        small = dict(case, ops=GOV.shrink(case["ops"], fails, budget=60))
     res2 = lrig.run_load_case(small, guards)
     model2 = run_driver(EXE, res2["lines"])
     j2 = _diff(res2, model2)
@@ -373,6 +464,12 @@ def replay(rec: dict) -> bool:
         if r.get("oracle"):
             return not any(k == r["oracle"] for (_, k, _, _) in res["oracle"])
         return _diff(res, run_driver(EXE, res["lines"])) < 0
+    if "relay_case" in r:
+        rrig.load_names(run_driver, EXE_W)
+        res = rrig.run_relay_case(r["relay_case"])
+        if r.get("oracle"):
+            return not any(k == r["oracle"] for (k, _, _) in res["oracle"])
+        return (run_driver(EXE_W, res["lines"]) if res["lines"] else []) == res["impl"]
     if "c2_case" in r:
         res = wrig.run_c2_case(r["c2_case"])
         if r.get("oracle"):
@@ -416,8 +513,10 @@ def run(ctx: Ctx):
         ctx.extract("SoftwareRecv", x_recv.emit)
         ctx.extract("SoftwareLoader", x_load.emit)
         ctx.extract("SoftwareRegs", x_regs.emit)
+        ctx.extract("SoftwareRelay", x_relay.emit)
         ctx.prove(MODULES, exes=[EXE, EXE_W], clean=False, leanchecker=ctx.thorough)
     guards = _guards()
+    GOV.reset(ctx.thorough)
     ctx.cov["rule"] = ("cases = (node power and durations, operation sequence over install/uninstall (API and request) of every shipped "
                        "class, the 10 service / 4 application requests, direct method calls, duration writes, ticks, power API and "
                        "requests, payload deliveries and frames); after every operation the answer and the whole registry/lifecycle "
@@ -522,11 +621,20 @@ def run(ctx: Ctx):
     _LOAD_REPORTED.clear()
     for f in sorted((VERIF / "corpus" / "C13" / "load").glob("*.json")):
         load_cases.append(("corpus:load/" + f.name, json.loads(f.read_text())["case"]))
+    def views(name: str, c: dict):
+        # a scenario with several hosts is compared once per host (`view`): the specification line, the oracle and the registry /
+        # lifecycle model of THAT host, while the operations on the other hosts and the whole-game steps run on the real game
+        if not c.get("peers"):
+            return [(name, c)]
+        return [(f"{name}@{h}", dict(c, view=h)) for h in [lrig.HOST] + [p_["hostname"] for p_ in c["peers"]]]
     for k, c in enumerate(lrig.enum_load_cases()):
-        load_cases.append((f"load-enum:{k}", c))
+        load_cases += views(f"load-enum:{k}", c)
     lrng = ctx.rng.fork("load")
-    for k in range(ctx.scale(200, 4000)):
+    for k in range(ctx.scale(140, 3000)):
         load_cases.append((f"load-gen:{k}", lrig.gen_load_case(lrng, max_ops=ctx.scale(20, 36))))
+    mrng = ctx.rng.fork("load-multi")
+    for k in range(ctx.scale(40, 300)):
+        load_cases += views(f"load-multi:{k}", lrig.gen_load_case(mrng, max_ops=ctx.scale(16, 30), multi=True))
     results, lines_all, bounds = [], [], []
     for name, case in load_cases:
         res = lrig.run_load_case(case, guards)
@@ -623,6 +731,62 @@ def run(ctx: Ctx):
                               {"bot_case": c, "from": "bot"})
     ctx.oblige("rig:R-bot (attack loops of the red applications) agrees on every trace", "correspondence", bagree == bcompared,
                f"{bcompared - bagree} of {bcompared} traces disagree")
+
+    # -- R-relay: two real hosts, FTP client / server and C2 server / beacon (and every class with a fully translated `receive`) in
+    #    every state; at every real receive() / send() call the TRANSLATED chain is run on the observed environment
+    rrig.load_names(run_driver, EXE_W)
+    rrng = ctx.rng.fork("relay")
+    relay_corpus = [json.loads(f.read_text())["case"] for f in sorted((VERIF / "corpus" / "C13" / "relay").glob("*.json"))]
+    relay_cases = relay_corpus + [rrig.gen_relay_case(rrng, max_ops=ctx.scale(24, 40)) for _ in range(ctx.scale(100, 1200))]
+    ragree, rcalls, rseen = 0, 0, {}
+    for k, case in enumerate(relay_cases):
+        res = rrig.run_relay_case(case)
+        model = run_driver(EXE_W, res["lines"]) if res["lines"] else []
+        ctx.cov["traces_validated_against_impl"] += 1
+        ctx.case({"relay": case}, any(not m[2] for m in res["meta"]))
+        ctx.count("relay:ops-raised", res["raised"])
+        for (cls, meth, can, st, nst), i in zip(res["meta"], res["impl"]):
+            rcalls += 1
+            ctx.count(f"relay:{cls}.{meth}:{'may-act' if can else 'may-not-act'}:{i.split()[0]}:{'handler' if i.split()[1] != 'effs=-' else 'no-call'}")
+        hits = set()
+        for (kind, detail, cls) in res["oracle"]:
+            sig = {"kind": "not-running-software-acted" if kind == "payload-handled-while-not-running" else kind, "cls": cls, "via": "relay"}
+            key = json.dumps(sig, sort_keys=True)
+            if key in hits:
+                continue
+            hits.add(key)
+            rseen[key] = rseen.get(key, 0) + 1
+            ctx.count("oracle:" + kind)
+            if rseen[key] <= 2:
+                ctx.violation(sig, f"{kind} in relay:{k}: {detail}", {"relay_case": case, "from": f"relay:{k}", "oracle": kind})
+        j = next((q for q, (a, b) in enumerate(zip(res["impl"], model)) if a != b), -1)
+        if j < 0 and len(model) == len(res["impl"]):
+            ragree += 1
+            continue
+        cls, meth = res["meta"][j][0], res["meta"][j][1]
+        sig = {"kind": "model-vs-impl", "where": "relay", "cls": cls, "meth": meth}
+        mode = GOV.admit("relay", sig)
+        if mode == "count":
+            ctx.count(f"relay:disagree-not-reported:{cls}.{meth}")
+            continue
+        small = case
+        if mode == "shrink":
+            def fails(ops):
+                try:
+                    r2 = rrig.run_relay_case({"ops": ops})
+                    return (run_driver(EXE_W, r2["lines"]) if r2["lines"] else []) != r2["impl"]
+                except Exception:  # noqa
+                    return False
+            small = {"ops": GOV.shrink(case["ops"], fails, budget=60)}
+        ctx.violation(sig, f"real {cls}.{meth} differs from its TRANSLATED chain run on the observed environment: line={res['lines'][j]!r} "
+                           f"impl={res['impl'][j]!r} model={model[j] if j < len(model) else None!r} (state {res['meta'][j][3]}, node {res['meta'][j][4]})",
+                      {"relay_case": small, "from": f"relay:{k}"})
+    ctx.oblige("rig:R-relay (two hosts; FTP client / server, C2 server / beacon: every real receive / send call vs its translated chain) agrees",
+               "correspondence", ragree == len(relay_cases), f"{len(relay_cases) - ragree} of {len(relay_cases)} cases disagree")
+    ctx.cov["relay_calls_compared"] = rcalls
+    missing = [c for c in rrig.TARGETS for m in ("receive", "send") if (m, c) not in rrig.NAMES]
+    ctx.oblige("rig:R-relay the driver carries the translated chains of the FTP and C2 classes", "correspondence", not missing,
+               "no translated chain in the driver for " + ", ".join(missing))
 
     # -- R-c2: one apply_timestep of a real C2Beacon / C2Server in every connection state, and the verdict of _check_connection
     c2rng = ctx.rng.fork("c2")
